@@ -118,6 +118,12 @@ func c02Run(c c02Case, base string) (res c02Result) {
 			res.Expected[name] = len(sel)
 		}
 	}
+	if c.Seed%4 == 1 {
+		// the glob also matches something that is not a readable file: it is refused, the rest is delivered, the session ends
+		for k := range c.Cmds {
+			os.MkdirAll(filepath.Join(dir, fmt.Sprintf("c%d", k+1), "archive.log"), 0755)
+		}
+	}
 	u, _ := user.New("vuser", "harness")
 	if c.Prelude {
 		// an aborted session leaves its readers in the middle of a line; whatever they held (pooled buffers, limiter slots)
@@ -169,7 +175,15 @@ func c02Run(c c02Case, base string) (res c02Result) {
 			n, err := ch.Read(buf)
 			if n > 0 {
 				rec.add("harness.send", sh)
-				sh.Write(buf[:n]) // may block while the handler waits for the .ack (like in the real server)
+				// the transport hands the command over in one piece or cut anywhere (an SSH channel coalesces and cuts at its
+				// buffer's end, not at command boundaries); may block while the handler waits for the .ack
+				if c.Seed%3 == 0 && n > 4 {
+					k := 1 + int(c.Seed/3)%(n-1)
+					sh.Write(buf[:k])
+					sh.Write(buf[k:n])
+				} else {
+					sh.Write(buf[:n])
+				}
 			}
 			if err != nil {
 				return
@@ -261,6 +275,9 @@ func c02Run(c c02Case, base string) (res c02Result) {
 	for _, recd := range strings.SplitAfter(out, "\n") {
 		if recd == "" {
 			continue
+		}
+		if strings.HasPrefix(recd, "SERVER|") {
+			continue // a message of the server (a refused path), not content
 		}
 		f := strings.SplitN(strings.TrimSuffix(recd, "\n"), "|", 6)
 		if len(f) != 6 || f[0] != "REMOTE" {
